@@ -281,8 +281,9 @@ inductive Blk
   | blocksub (name : String)                                  -- a paragraph that is nothing but `|name|`
   | namedtarget (name uri : String)                           -- `.. _name: uri`
   /-- a directive without options whose argument runs over several lines (`arg` holds at least one `nl`): the parser
-  re-parses such an argument as the first body element(s) of the directive, starting ON the directive's line -/
-  | directiveML (name domain : String) (arg : List Inl) (kids : List Blk)
+  re-parses such an argument as the first body element(s) of the directive, starting ON the directive's line - or, with
+  `nextLine`, on the line after it (nothing but the directive's name on its own line, no blank line before the text) -/
+  | directiveML (name domain : String) (nextLine : Bool) (arg : List Inl) (kids : List Blk)
   deriving Repr
 
 inductive SeqMode
@@ -381,11 +382,12 @@ mutual
           (.mk "argument" [] none (inlNodes arg) ::
            .mk "options" (optAttrs opts) none [] ::
            mapClaimsList (start + head.length + g) (pfxAt ℓ.padBlank ind ind) k.nodes)]⟩
-    | .directiveML name domain arg kids =>
+    | .directiveML name domain nextLine arg kids =>
       let ind := spaces ℓ.bodyIndent
       let al := inlLines arg ""
-      let l0 := ".. " ++ name ++ ":: " ++ headLine al
-      let head := l0 :: (al.drop 1).map (fun l => ind ++ l)
+      let l0 := if nextLine then ".. " ++ name ++ "::" else ".. " ++ name ++ ":: " ++ headLine al
+      let l1 := ind ++ headLine al
+      let head := if nextLine then l0 :: l1 :: (al.drop 1).map (fun l => ind ++ l) else l0 :: (al.drop 1).map (fun l => ind ++ l)
       let g := if kids.isEmpty then 0 else ℓ.gapAt start
       let k := emitSeq ℓ SeqMode.blocks (start + head.length + g) kids
       ⟨head ++ blanks g ++ prefixLines ℓ.padBlank ind ind k.lines,
@@ -393,7 +395,7 @@ mutual
           [("domain", .str domain), ("name", .str name)] (some (start, l0))
           (.mk "argument" [] none [] ::
            .mk "options" [] none [] ::
-           .mk "paragraph" [] (some (start, l0)) (inlNodes arg) ::
+           .mk "paragraph" [] (if nextLine then some (start + 1, l1) else some (start, l0)) (inlNodes arg) ::
            mapClaimsList (start + head.length + g) (pfxAt ℓ.padBlank ind ind) k.nodes)]⟩
     | .code dirname lang opts attrs ls =>
       let ind := spaces ℓ.bodyIndent
